@@ -148,6 +148,21 @@ fn main() {
                 }
             }
         }
+        "tape" => {
+            // atsv tape <ID> <file> [thorough]: run one libFuzzer input and print what happened
+            let data = std::fs::read(&args[3]).expect("tape file");
+            let tape = gen::tape_from_bytes(&data);
+            let p = gen::profile(prop, args.iter().any(|a| a == "thorough"));
+            let r = driver::eval_case(prop, &p, &tape);
+            for (i, s) in r.trace.iter().enumerate() {
+                println!("step {}: {}", i, s.to_json());
+            }
+            println!("counters: {:?}", r.judge.counters);
+            for v in &r.judge.violations {
+                println!("  [{}] step {}: {}", v.signature, v.step, v.detail);
+            }
+            std::process::exit(if r.judge.violations.is_empty() { 0 } else { 1 });
+        }
         "corpus" => {
             // atsv corpus <ID> <dir> <n>: write n starting inputs for the libFuzzer target (random
             // tapes of mixed lengths; a pure function of VERIF_SEED)
